@@ -256,6 +256,9 @@ func qeMain(args []string) int {
 		rnd := newVRand(flags.seed)
 		for len(inputs) < flags.n {
 			ds := qeGenDataset(rnd.fork(), prof.maxBackends, prof.maxHosts)
+			if prof.cluster {
+				ds.sortCustomVars()
+			}
 			if prof.downBackends {
 				for _, bk := range ds.Backends {
 					if rnd.chance(1, 3) {
